@@ -36,7 +36,9 @@ Record main_case (c : cfg) (U : list blk) (st : state) (lcr : list blk) (b : blk
               then if fork_choice c st lcr b newtl oldb && negb (cand_valid st b newtl) then None else Some b
               else sget (blocks st) h;
   m_steps : if fork_choice c st lcr b newtl oldb
-            then wsteps st' <= 2 * (Nlen (b :: newtl) + Nlen oldb) else wsteps st' = wsteps st
+            then wsteps st' <= 2 * (Nlen (b :: newtl) + Nlen oldb) else wsteps st' = wsteps st;
+  m_last : last_id st <= last_id st'
+           /\ (fork_choice c st lcr b newtl oldb && cand_valid st b newtl = true -> b_id b <= last_id st')
 }.
 
 Section Main.
@@ -99,7 +101,7 @@ Section Main.
         unfold add_tail in Eadd. cbn [tip_hash] in Eadd.
         rewrite (add_chains_A c U HU st b W Hb Hbl Hroot) in Eadd. cbn [bind] in Eadd.
         destruct (add_finish_ok c U HU HWF (inserted c st b) b [] [] [] W2 Hb G2 Hx) as
-          (st' & r & Ef & Rf & Er & Wf & Sf & Tf).
+          (st' & r & Ef & Rf & Er & Wf & Sf & Tf & Lf & Lbf).
         { intros y [<-|[]]. now rewrite sget_inserted, N.eqb_refl. }
         { cbn [linked_dn link_to app]. auto. }
         { right. auto. }
@@ -126,6 +128,7 @@ Section Main.
           match goal with |- (if ?a && negb ?b then _ else _) = _ => destruct (a && negb b) end; reflexivity.
         * unfold fork_choice. cbn [inserted ring_empty wsteps] in Tf. unfold Nlen, hashes in *.
           rewrite !map_length in Tf. exact Tf.
+        * unfold fork_choice, cand_valid. cbn [inserted ring_empty last_id] in Lf, Lbf. auto.
     - (* parent stored *)
       destruct (get_block st (b_prev b)) as [sbp|] eqn:Gp; [|contradiction].
       rewrite andb_false_r in Eadd. cbn [andb] in Eadd.
@@ -137,7 +140,7 @@ Section Main.
       { intros Hbl. unfold get_block in Gp. rewrite Hbl in Gp. discriminate. }
       rewrite E in W2, Hx.
       destruct (add_finish_ok c U HU HWF (inserted c st b) b newtl above (s :: below) W2 Hb G2 Hx) as
-        (st' & r & Ef & Rf & Er & Wf & Sf & Tf).
+        (st' & r & Ef & Rf & Er & Wf & Sf & Tf & Lf & Lbf).
       { intros y [<-|Hy]; [now rewrite sget_inserted, N.eqb_refl|].
         destruct (Hst y Hy) as [Hs _]. rewrite sget_inserted.
         destruct (N.eqb_spec (b_hash y) (b_hash b)) as [Ey|_]; [|exact Hs].
@@ -164,6 +167,7 @@ Section Main.
         match goal with |- (if ?a && negb ?b then _ else _) = _ => destruct (a && negb b) end; reflexivity.
       * unfold fork_choice. cbn [inserted ring_empty wsteps] in Tf. unfold Nlen, hashes in *.
         rewrite !map_length in Tf. exact Tf.
+      * unfold fork_choice, cand_valid. cbn [inserted ring_empty last_id] in Lf, Lbf. auto.
   Qed.
 
   (* ================================================================== *)
@@ -382,6 +386,44 @@ Section Main.
       rewrite (m_split _ _ _ _ _ _ _ _ _ _ M), app_length in Hl. lia.
   Qed.
 
+  (* last_block_id is an upper bound of the reported height (it is NOT the height, see
+     last_hash_stale_witness in ChainCheck.v) *)
+  Definition InvL (st : state) : Prop := exists lcr, InvW c U st lcr /\ tip_id lcr <= last_id st.
+
+  Theorem invl_step st b st' r :
+    InvL st -> In b U -> parent_ok U st b -> add_block c st b = Ok (st', r) -> InvL st'.
+  Proof.
+    intros (lcr & HI & HL) Hb Hp E.
+    destruct (add_block_spec st lcr b HI Hb Hp) as (st1 & r1 & E1 & [C|[C|C]]);
+      rewrite E in E1; injection E1 as <- <-.
+    - destruct C as (_ & _ & ->). now exists lcr.
+    - destruct C as (_ & _ & -> & _). now exists lcr.
+    - destruct C as (_ & _ & newtl & oldb & common & M).
+      pose proof (m_inv _ _ _ _ _ _ _ _ _ _ M) as HI'.
+      destruct (m_last _ _ _ _ _ _ _ _ _ _ M) as [L1 L2].
+      destruct (fork_choice c st lcr b newtl oldb && cand_valid st b newtl).
+      + exists ((b :: newtl) ++ common). split; [exact HI'|]. cbn [app tip_id]. auto.
+      + exists lcr. split; [exact HI'|]. lia.
+  Qed.
+
+  Theorem last_id_bounds_height bs : forall st, InvL st -> orphan_free st bs ->
+    exists st' i, deliver c st bs = Ok st' /\ latest_id st' = Ok i /\ i <= last_id st'.
+  Proof.
+    induction bs as [|b t IH]; intros st HI Hof; cbn [deliver].
+    - destruct HI as (lcr & [W Hre] & HL). exists st, (tip_id lcr). split; [reflexivity|].
+      split; [apply (latest_id_spec c U HU _ _ _ W)|exact HL].
+    - destruct Hof as (Hb & Hp & Hof).
+      assert (HI0 : Inv c U st) by (destruct HI as (lcr & ? & _); now exists lcr).
+      destruct (add_block_total st b HI0 Hb Hp) as (st1 & r1 & E1). rewrite E1 in *. cbn [bind fst].
+      apply IH; [|exact Hof]. eapply invl_step; eauto.
+  Qed.
+
+  Theorem last_id_bounds_height_init bs : orphan_free (init c) bs ->
+    exists st i, deliver c (init c) bs = Ok st /\ latest_id st = Ok i /\ i <= last_id st.
+  Proof.
+    apply last_id_bounds_height. exists []. split; [apply inv_init|]. cbn. lia.
+  Qed.
+
   Theorem ledger_is_replay bs : 1 <= 2 * gp_of c -> orphan_free (init c) bs ->
     exists st lc,
       deliver c (init c) bs = Ok st
@@ -491,6 +533,29 @@ Section ForkChoice.
       destruct (fork_choice_true st lcr b newtl oldb common HI Hb (m_split _ _ _ _ _ _ _ _ _ _ M) Efc)
         as (_ & F2 & _).
       exists (b_id b). cbn [app tip_id]. repeat split; lia.
+  Qed.
+
+  (* the answer OnChain always comes with a move of the tip to the new block *)
+  Theorem onchain_moves_tip st lcr b st' :
+    InvW c U st lcr -> In b U -> parent_ok U st b -> add_block c st b = Ok (st', OnChain) ->
+    latest_hash st' = Ok (b_hash b) /\ latest_hash st' <> latest_hash st.
+  Proof.
+    intros HI Hb Hp E. pose proof HI as [W _].
+    destruct (add_block_spec c U HU HWF st lcr b HI Hb Hp) as (st1 & r1 & E1 & [C|[C|C]]);
+      rewrite E in E1; injection E1 as <- <-.
+    - destruct C as (_ & C & _). discriminate.
+    - destruct C as (_ & [C|C] & _); discriminate.
+    - destruct C as (G & _ & newtl & oldb & common & M).
+      pose proof (m_res _ _ _ _ _ _ _ _ _ _ M) as Er.
+      pose proof (m_inv _ _ _ _ _ _ _ _ _ _ M) as HI'.
+      destruct (fork_choice c st lcr b newtl oldb); [|discriminate].
+      destruct (cand_valid st b newtl); [|discriminate].
+      cbn [andb] in HI'. destruct HI' as [W' _].
+      rewrite (latest_hash_spec c U HU _ _ _ W'), (latest_hash_spec c U HU _ _ _ W).
+      cbn [app]. split; [reflexivity|]. intros [= Eh].
+      destruct lcr as [|t l]; cbn in Eh.
+      + now apply (u_nz _ _ HU b Hb).
+      + pose proof (w_lc _ _ _ _ _ W t (or_introl eq_refl)) as Gt. rewrite <- Eh in Gt. congruence.
   Qed.
 
   (* ---- uniqueness of the decomposition, for the converse ---- *)
